@@ -152,8 +152,10 @@ impl<'a> Ctx<'a> {
                                if counted && !self.ends_dead(&out) { out.push(I::LocalGet(c)); out.push(I::I32Const(1)); out.push(I::I32Sub); out.push(I::LocalTee(c)); out.push(I::BrIf(0)); }
                                out.push(I::End); }
                         _ => { self.push_val(&mut out, 0); out.push(I::If(bt)); self.note("If"); labels.push(rs.clone());
-                               let b = self.seq(labels, ps.clone(), &rs, depth + 1); out.extend(b);
-                               if ps != rs || self.r.chance(1, 2) { out.push(I::Else); self.note("Else"); let e = self.seq(labels, ps.clone(), &rs, depth + 1); out.extend(e); }
+                               // an arm may be EMPTY when the block type allows it (parameters = results): empty `then` with a non-empty `else`, and the converse
+                               let empty_then = ps == rs && self.r.chance(1, 6); let empty_else = !empty_then && ps == rs && self.r.chance(1, 8);
+                               if !empty_then { let b = self.seq(labels, ps.clone(), &rs, depth + 1); out.extend(b); }
+                               if empty_then || empty_else || ps != rs || self.r.chance(1, 2) { out.push(I::Else); self.note("Else"); if !empty_else { let e = self.seq(labels, ps.clone(), &rs, depth + 1); out.extend(e); } }
                                labels.pop(); out.push(I::End); }
                     }
                     for c in rs { stack.push(c); }
